@@ -93,9 +93,9 @@ def _smh(ctx, facts):
 def draw_counter(fn):
     """name of the draw counter: the local compared with self.a_upper in the guard of the top-level while loop"""
     t = tree_of(fn)
-    for lp in [x for x in t.nodes if x["k"] == "Loop" and x["src"] == "While" and not t.enclosing_loops(x)]:
+    for lp in [x for x in t.nodes if x["k"] == "Loop" and x["src"] in ("While", "Loop") and not t.enclosing_loops(x)]:
         for (kind, node) in loop_exits(fn, lp):
-            if kind == "guard":
+            if kind in ("guard", "break"):
                 for c in nf.all_conditions(t, node, stop=lp):
                     if c[0] == "cmp" and c[1] == "self.a_upper" and c[2] in ("<", "<="):
                         return c[3]
@@ -311,10 +311,10 @@ def _histo(ctx, facts, fid, kind):
 def _exit_aupper(ctx, facts, fid):
     fn = facts.fn(fid)
     t = tree_of(fn)
-    loops = [n for n in t.nodes if n["k"] == "Loop" and n["src"] == "While" and not hirq.in_log_macro(n)]
+    loops = [n for n in t.nodes if n["k"] == "Loop" and n["src"] in ("While", "Loop") and not hirq.in_log_macro(n)]
     outer = [l for l in loops if not t.enclosing_loops(l)]
     if len(outer) != 1:
-        ctx.violation("EXIT", fid, "draw loop", hirq.loc(fn), "expected exactly one top-level while loop (the draw loop), found %d" % len(outer))
+        ctx.violation("EXIT", fid, "draw loop", hirq.loc(fn), "expected exactly one top-level draw loop, found %d" % len(outer))
         return 0
     loop = outer[0]
     n = 0
@@ -324,7 +324,7 @@ def _exit_aupper(ctx, facts, fid):
             continue
         n += 1
         conds = nf.all_conditions(t, node, stop=loop)
-        if kind == "guard" and len(conds) == 1 and conds[0][:3] == ("cmp", "self.a_upper", "<") and conds[0][3] == draw_counter(fn):
+        if kind in ("guard", "break") and len(conds) == 1 and conds[0][:3] == ("cmp", "self.a_upper", "<") and conds[0][3] == draw_counter(fn):
             ctx.ok("EXIT", fid, "draw loop left when j > a_upper", hirq.loc(node))
         else:
             ctx.violation("EXIT", fid, "draw loop exit (%s)" % kind, hirq.loc(node), "the draw loop may only be left when j > self.a_upper; this exit is taken when %s" % (conds[:2],))
